@@ -1,5 +1,7 @@
 """C21 — disk usage accounting stays exact: the disk-usage protocol in disk_manager.rs."""
 from traces import *
+from collections import Counter
+import re
 
 TECHNIQUE = 'static analysis: exhaustive path enumeration over MIR with symbolic place tags (A2 pairing/ordering rules over event traces); who-may-write census'
 EXPLANATION = ('Every path through FileSpillWriter::write, Drop for RefCountedTempFile and DiskManager::create_tmp_file is '
@@ -21,6 +23,37 @@ CREATE = DM + 'DiskManager::create_tmp_file'
 USED = 'used_disk_space'
 FILEUSE = 'current_file_disk_usage'
 ACTIVE = 'active_files_count'
+
+
+def linear(expr):
+    """'len' | 'sub(?len,?written).0' | 'add(a,b).0' -> Counter of atoms with integer coefficients (None if not linear)"""
+    e = expr.strip().lstrip('?')
+    if e.endswith('.0') and (e.startswith('add(') or e.startswith('sub(')):
+        e = e[:-2]
+    m = re.match(r'^(add|sub)\((.*)\)$', e)
+    if not m:
+        if re.match(r'^[A-Za-z_][A-Za-z_0-9.:@()]*$', e) or re.match(r'^\d+$', e):
+            return Counter({e: 1})
+        return None
+    inner = m.group(2)
+    depth, cut = 0, None
+    for i, ch in enumerate(inner):
+        if ch == '(':
+            depth += 1
+        elif ch == ')':
+            depth -= 1
+        elif ch == ',' and depth == 0:
+            cut = i
+            break
+    if cut is None:
+        return None
+    a, b = linear(inner[:cut]), linear(inner[cut + 1:])
+    if a is None or b is None:
+        return None
+    out = Counter(a)
+    for k, v in b.items():
+        out[k] += v if m.group(1) == 'add' else -v
+    return Counter({k: v for k, v in out.items() if v})
 
 
 def atom_events(o):
@@ -59,7 +92,24 @@ def check_write(ctx, facts, fnpath, rule='charge-pairing'):
             if len(adds) != 1:
                 problems.append('global usage charged %d times on one path' % len(adds))
             released = [e for e in subs if e[2] == amt] + [e for e in xfer if e[2] == amt]
-            if len(released) != 1:
+            # symbolic balance: bytes that stay charged globally must equal the bytes recorded for the file
+            lin = [linear(e[2]) for e in adds + subs + xfer]
+            if all(x is not None for x in lin):
+                g = Counter()
+                for e in adds:
+                    g.update(linear(e[2]))
+                for e in subs:
+                    g.subtract(linear(e[2]))
+                fl = Counter()
+                for e in xfer:
+                    fl.update(linear(e[2]))
+                g = Counter({k: v for k, v in g.items() if v})
+                fl = Counter({k: v for k, v in fl.items() if v})
+                if g != fl:
+                    problems.append('after this %s exit the global counter keeps %s charged but the file records %s: dropping the file will not bring usage back to where it was' % (
+                        rk, dict(g) or 0, dict(fl) or 0))
+                released = released or [1] if g == fl else released
+            if len(released) != 1 and not all(x is not None for x in lin):
                 problems.append('charge of %s to used_disk_space is %s on the %s exit (needs exactly one rollback or one transfer to the file\'s usage)' % (
                     amt, 'neither rolled back nor transferred' if not released else 'released %d times' % len(released), rk))
             if rk == 'Ok' and not xfer:
